@@ -2,6 +2,48 @@ import IpcModel.Router
 /-! Proofs about the repaired router thread (`Router.fixed`). -/
 namespace Router
 
+theorem step_wake_fixed (st : St) (hs : st.stopped = false) : step fixed st .wake = drainQ st st.msgq := by
+  unfold step; simp [hs, fixed]
+
+theorem drainQ_noPanic (q : List RMsg) (st : St) (hn : noPanic st) : noPanic (drainQ st q) := by
+  induction q generalizing st with
+  | nil => simpa [drainQ, noPanic] using hn
+  | cons m q ih =>
+    cases m with
+    | addRoute r => simp only [drainQ]; exact ih _ (by simpa [noPanic] using hn)
+    | shutdown c => simp [drainQ, noPanic, dropAll] at hn ⊢; exact hn
+
+/-- registering queued routes keeps every registered id below `nextId`, and never changes the route of an existing id -/
+theorem drainQ_lookup (q : List RMsg) (st : St) (hfresh : ∀ p, p ∈ st.handlers → p.1 < st.nextId) (hns : ∀ m ∈ q, ∀ c, m ≠ .shutdown c) :
+    (drainQ st q).log = st.log ∧ (drainQ st q).stopped = st.stopped ∧ (drainQ st q).msgq = [] ∧
+    (∀ p, p ∈ (drainQ st q).handlers → p.1 < (drainQ st q).nextId) ∧ st.nextId ≤ (drainQ st q).nextId ∧
+    (∀ id, id < st.nextId → lookup (drainQ st q).handlers id = lookup st.handlers id) ∧
+    ((drainQ st q).handlers.map (·.2) = st.handlers.map (·.2) ++ q.filterMap (fun | .addRoute r => some r | .shutdown _ => none)) := by
+  induction q generalizing st with
+  | nil => exact ⟨rfl, rfl, rfl, hfresh, Nat.le_refl _, fun _ _ => rfl, by simp [drainQ]⟩
+  | cons m q ih =>
+    cases m with
+    | shutdown c => exact absurd rfl (hns _ List.mem_cons_self c)
+    | addRoute r =>
+      simp only [drainQ]
+      have hf' : ∀ p, p ∈ st.handlers ++ [(st.nextId, r)] → p.1 < st.nextId + 1 := by
+        intro p hp
+        rcases List.mem_append.mp hp with h1 | h1
+        · have := hfresh p h1; omega
+        · simp at h1; subst h1; simp
+      obtain ⟨h1, h2, h3, h4, h5, h6, h7⟩ := ih { st with handlers := st.handlers ++ [(st.nextId, r)], nextId := st.nextId + 1 } hf'
+        (fun m hm => hns m (List.mem_cons_of_mem _ hm))
+      refine ⟨h1, h2, h3, h4, by simp only at h5; omega, ?_, by simp only at h7; rw [h7]; simp⟩
+      intro id hid
+      rw [h6 id (by simp only; omega)]
+      simp only [lookup]
+      rw [List.find?_append]
+      cases hf : st.handlers.find? (fun x => decide (x.1 = id)) with
+      | some p => simp
+      | none =>
+        have : ¬ st.nextId = id := by omega
+        simp [this]
+
 theorem step_noPanic (st : St) (e : Ev) (hn : noPanic st) (hok : st.stopped = true ∨ okEv st e) :
     noPanic (step fixed st e) := by
   unfold step
@@ -14,13 +56,9 @@ theorem step_noPanic (st : St) (e : Ev) (hn : noPanic st) (hok : st.stopped = tr
       · exact h
     cases e with
     | wake =>
-      simp only [okEv] at hok'
-      cases hq : st.msgq with
-      | nil => exact absurd hq hok'
-      | cons m q =>
-        cases m with
-        | addRoute r => simpa [noPanic] using hn
-        | shutdown c => simp [noPanic, dropAll, fixed] at hn ⊢; exact hn
+      have hs' : st.stopped = false := by simpa using hs
+      have := drainQ_noPanic st.msgq st hn
+      simpa [fixed] using this
     | wakeClosed => simp [noPanic, dropAll, fixed] at hn ⊢; exact hn
     | msg id tag =>
       simp only [okEv] at hok'
@@ -52,7 +90,7 @@ theorem shutdown_stops (st : St) (c : Nat) (q : List RMsg) (es : List Ev)
     (run fixed st (.wake :: es)).handlers = [] ∧ (run fixed st (.wake :: es)).stopped = true ∧
     (run fixed st (.wake :: es)).log = st.log ++ st.handlers.map (fun p => Eff.dropH p.2) ++ [.ack c, .stop] := by
   have h1 : step fixed st .wake = { (dropAll { st with msgq := q }) with log := (dropAll { st with msgq := q }).log ++ [.ack c, .stop], stopped := true } := by
-    unfold step; simp [hs, hq, fixed]
+    rw [step_wake_fixed st hs, hq]; simp [drainQ]
   have : run fixed st (.wake :: es) = step fixed st .wake := by
     simp only [run, List.foldl_cons]
     exact run_stopped _ _ es (by rw [h1])
@@ -116,18 +154,29 @@ theorem step_closed (st : St) (id r : Nat) (hs : st.stopped = false) (hr : route
   · intro id' hne; simp only [routeOf]; exact lookup_filter_ne _ _ _ hne
 
 theorem step_add_preserves (st : St) (r : Nat) (q : List RMsg) (hs : st.stopped = false) (hq : st.msgq = .addRoute r :: q)
+    (hns : ∀ m ∈ q, ∀ c, m ≠ .shutdown c)
     (hfresh : ∀ p, p ∈ st.handlers → p.1 < st.nextId) (id : Nat) (hid : id < st.nextId) :
     routeOf (step fixed st .wake) id = routeOf st id ∧ routeOf (step fixed st .wake) st.nextId = some r := by
-  unfold step
-  simp only [hs, hq, Bool.false_eq_true, if_false, routeOf, lookup]
+  rw [step_wake_fixed st hs, hq]
+  simp only [drainQ, routeOf]
+  have hf' : ∀ p, p ∈ st.handlers ++ [(st.nextId, r)] → p.1 < st.nextId + 1 := by
+    intro p hp
+    rcases List.mem_append.mp hp with h1 | h1
+    · have := hfresh p h1; omega
+    · simp at h1; subst h1; simp
+  have h := (drainQ_lookup q { st with handlers := st.handlers ++ [(st.nextId, r)], nextId := st.nextId + 1 } hf' hns).2.2.2.2.2.1
   constructor
-  · rw [List.find?_append]
+  · rw [h id (by simp only; omega)]
+    simp only [lookup]
+    rw [List.find?_append]
     cases hf : st.handlers.find? (fun x => decide (x.1 = id)) with
     | some p => simp
     | none =>
       have : ¬ st.nextId = id := by omega
       simp [this]
-  · rw [List.find?_append]
+  · rw [h st.nextId (by simp only; omega)]
+    simp only [lookup]
+    rw [List.find?_append]
     have : st.handlers.find? (fun x => decide (x.1 = st.nextId)) = none := by
       rw [List.find?_eq_none]
       intro p hp; have := hfresh p hp; simp; omega
@@ -136,27 +185,45 @@ theorem step_add_preserves (st : St) (r : Nat) (q : List RMsg) (hs : st.stopped 
 /-- ids stay fresh along any run: every registered id is below `nextId` -/
 def Fresh (st : St) : Prop := ∀ p, p ∈ st.handlers → p.1 < st.nextId
 
+theorem drainQ_fresh (q : List RMsg) (st : St) (h : Fresh st) : Fresh (drainQ st q) := by
+  induction q generalizing st with
+  | nil => simpa [drainQ, Fresh] using h
+  | cons m q ih =>
+    cases m with
+    | addRoute r =>
+      simp only [drainQ]
+      apply ih
+      intro p hp
+      simp at hp
+      rcases hp with hp | rfl
+      · have := h p hp; simp; omega
+      · simp
+    | shutdown c => simp [drainQ, Fresh, dropAll]
+
 theorem step_fresh (V : Variant) (st : St) (e : Ev) (h : Fresh st) : Fresh (step V st e) := by
   unfold step
   split
   · exact h
   · cases e with
     | wake =>
-      cases hq : st.msgq with
-      | nil => simpa [Fresh] using h
-      | cons m q =>
-        cases m with
-        | addRoute r =>
-          intro p hp
-          simp at hp
-          rcases hp with hp | rfl
-          · have := h p hp; simp; omega
-          · simp
-        | shutdown c =>
-          simp only
-          split
-          · simpa [Fresh] using h
-          · split <;> simp [Fresh, dropAll]
+      simp only
+      split
+      · exact drainQ_fresh st.msgq st h
+      · cases hq : st.msgq with
+        | nil => simpa [Fresh] using h
+        | cons m q =>
+          cases m with
+          | addRoute r =>
+            intro p hp
+            simp at hp
+            rcases hp with hp | rfl
+            · have := h p hp; simp; omega
+            · simp
+          | shutdown c =>
+            simp only
+            split
+            · simpa [Fresh] using h
+            · split <;> simp [Fresh, dropAll]
     | wakeClosed =>
       simp only
       split
